@@ -287,6 +287,15 @@ def run(R):
     R.coverage["e2e_stage"] = info
     lines, keys = [], []
     broken_tie = []
+    rejected = []
+    for name, o in sorted(obs.items()):
+        # every application of the family follows the documented rules: pavexc must accept it and its SDK must compile
+        if o.get("klass") != FAMILY:
+            continue
+        if o["rc"] != 0 or o["panicked"] or not o.get("cargo_check", {}).get("ok"):
+            msg = [l.strip() for l in o["out"].split("\n") if "panicked" in l or "did not" in l or "ERROR" in l][:3]
+            rejected.append({"program": name, "rc": o["rc"], "panicked": o["panicked"], "cargo_check": o.get("cargo_check"),
+                             "message": msg or o["out"][-600:], "mini": o["spec"].get("mini"), "app_module_source": o["src"]})
     for name, d in sorted(rt.items()):
         o = obs[name]
         spec = o["spec"]
@@ -369,6 +378,17 @@ def run(R):
     R.coverage["impl_vs_oracle_failures"] = len(fails)
     R.log("servers=%d requests=%d nontrivial=%d oracle_failures=%d disagreements=%d %s" % (len(keys), n_eval, len(seen), len(fails), len(dis), hist))
     unknown = 0
+    R.coverage["family_programs_rejected"] = len(rejected)
+    for rj in rejected:
+        why = "pavexc %s an application whose error handlers / observers follow every documented rule: %s" % (
+            "panicked on" if rj["panicked"] else ("rejected" if rj["rc"] != 0 else "generated code that does not compile for"), str(rj["message"])[:300])
+        f = match_known(R, why, rj)
+        if f is not None:
+            R.known_hit(f)
+            continue
+        unknown += 1
+        if unknown <= 3:
+            R.violation(why, rj)
     for why, case in fails:
         f = match_known(R, why, case)
         if f is not None:
